@@ -332,10 +332,11 @@ pub fn small_alphabet() -> Vec<AOp> {
         AOp::Cancel(0),
         AOp::CancelRetrans(1),
         AOp::Configure { t: 0, rto: 100, n: 1, last: 300 },
+        AOp::Configure { t: 1, rto: 500, n: 3, last: 2000 },
         AOp::SetRemote(0),
     ]
 }
-/// the `index`-th history of length `depth` over the small alphabet (base-12 digits, least significant first)
+/// the `index`-th history of length `depth` over the small alphabet (base-13 digits, least significant first)
 pub fn small_history(depth: usize, mut index: u64) -> Vec<AOp> {
     let a = small_alphabet();
     let mut h = vec![];
@@ -348,7 +349,7 @@ fn agent_mode(name: &str, rule: &str, tier: &str, seed: u64, prefixes: &[&str], 
     let mut rng = Rng::new(seed);
     let n = crate::modes::n_cases(tier, 6000, 100000);
     let base = Instant::now();
-    // exhaustive small scope: EVERY history of length 1..=depth over the 12-operation alphabet, UDP (and TCP in the thorough tier)
+    // exhaustive small scope: EVERY history of length 1..=depth over the 13-operation alphabet, UDP (and TCP in the thorough tier)
     let depth = if tier == "thorough" { 5 } else { 4 };
     let transports: &[TransportType] = if tier == "thorough" { &[TransportType::Udp, TransportType::Tcp] } else { &[TransportType::Udp] };
     let mut exhaustive = 0u64;
@@ -369,7 +370,7 @@ fn agent_mode(name: &str, rule: &str, tier: &str, seed: u64, prefixes: &[&str], 
             }
         }
     }
-    rep.notes.push(format!("exhaustive: all {} histories of length 1..={} over the 12-operation small alphabet ({:?})", exhaustive, depth, transports));
+    rep.notes.push(format!("exhaustive: all {} histories of length 1..={} over the 13-operation small alphabet ({:?})", exhaustive, depth, transports));
     for i in 0..n {
         let len = if i % 50 == 49 { 200 } else { rng.range(3, 14) as usize };
         let mut hr = Rng::new(seed ^ (i.wrapping_mul(0x9E37)));
@@ -408,7 +409,7 @@ fn agent_mode(name: &str, rule: &str, tier: &str, seed: u64, prefixes: &[&str], 
     rep
 }
 
-const AGENT_RULE: &str = "EVERY call history of length <= 4 (quick) / <= 5 (thorough, UDP and TCP) over a 12-operation small alphabet, then random call histories of 3..14 operations (every 50th: 200) over {send request/indication/response sealed or not to 4 destinations, poll now / early / exactly at the wake-up / late / far, 9 kinds of incoming message (valid SHA-1/SHA-256 under the remote key, other key, unsigned, corrupted MAC, unknown id, request, indication, error+fingerprint) from 4 sources, cancel, cancel_retransmissions, configure_timeout(rto in {1,7,100,500,1000,60000} ms, 0..=8 retransmits, last in {0,1,300,8000,60000} ms), set/changed remote credentials} for 3 transaction ids, UDP and TCP; after every call the replies and the observables request_transaction / peer_address / is_validated_peer are compared with an abstract agent written from the statement; non-trivial = history with at least one retransmission, delivery, timeout or cancellation.";
+const AGENT_RULE: &str = "EVERY call history of length <= 4 (quick) / <= 5 (thorough, UDP and TCP) over a 13-operation small alphabet, then random call histories of 3..14 operations (every 50th: 200) over {send request/indication/response sealed or not to 4 destinations, poll now / early / exactly at the wake-up / late / far, 9 kinds of incoming message (valid SHA-1/SHA-256 under the remote key, other key, unsigned, corrupted MAC, unknown id, request, indication, error+fingerprint) from 4 sources, cancel, cancel_retransmissions, configure_timeout(rto in {1,7,100,500,1000,60000} ms, 0..=8 retransmits, last in {0,1,300,8000,60000} ms), set/changed remote credentials} for 3 transaction ids, UDP and TCP; after every call the replies and the observables request_transaction / peer_address / is_validated_peer are compared with an abstract agent written from the statement; non-trivial = history with at least one retransmission, delivery, timeout or cancellation.";
 
 pub fn c05(tier: &str, seed: u64) -> Report { agent_mode("c05", AGENT_RULE, tier, seed, &["C05"], false) }
 pub fn c06(tier: &str, seed: u64) -> Report {
